@@ -260,7 +260,7 @@ Print Assumptions C08_source_add_interest.
 Theorem C08_source_shapes :
   gen_summary_unrecognised = [] /\ gen_inner_is_registry_from_inner_value = true /\
   gen_vec_interest_is_conjunction = true /\ gen_vec_enabled_is_all = true /\ gen_vec_hint_is_max_from_off = true /\
-  gen_vec_markers = true /\ gen_option_none_summaries = true /\ gen_filtered_summaries = true /\
+  gen_vec_markers = true /\ gen_layered_markers = true /\ gen_option_none_summaries = true /\ gen_filtered_summaries = true /\
   gen_env_hint = true /\ gen_directive_add_max_exact = true.
 Proof. exact (conj source_recognised (conj source_inner_is_registry source_flags)). Qed.
 Print Assumptions C08_source_shapes.
